@@ -15,8 +15,15 @@ import (
 	"time"
 
 	"go.uber.org/zap"
+	"go.uber.org/zap/exp/zapfield"
 	"go.uber.org/zap/zapcore"
 	"pgregory.net/rapid"
+)
+
+type (
+	namedKey  string
+	namedVal  string
+	namedVals []namedVal
 )
 
 // ---------------------------------------------------------------- expected tree
@@ -30,6 +37,8 @@ type xnode struct {
 	c    complex128
 	kids []xkv
 	els  []*xnode
+	raw  any    // the original Go value (typed), when known
+	rk   string // Spec kind the raw value came from (bin vs bstr)
 }
 
 type xkv struct {
@@ -320,6 +329,20 @@ func (s *Spec) Field() zapcore.Field {
 		return zap.Skip()
 	case "stack":
 		return zap.Stack(k)
+	case "stackskip":
+		return zap.StackSkip(k, s.V.(int))
+	case "zfstr":
+		return zapfield.Str(namedKey(k), namedVal(s.V.(string)))
+	case "zfstrs":
+		vs := s.V.([]string)
+		nv := make(namedVals, len(vs))
+		for i, x := range vs {
+			nv[i] = namedVal(x)
+		}
+		if vs == nil {
+			nv = nil
+		}
+		return zapfield.Strs(namedKey(k), nv)
 	case "obj":
 		return zap.Object(k, specObj{s})
 	case "arr":
@@ -475,7 +498,7 @@ func (s *Spec) anyValue() any {
 // representation as Field() for this kind.
 func (s *Spec) anyCapable() bool {
 	switch s.Kind {
-	case "bstr", "ns", "skip", "stack", "inline", "inlinedict", "objects", "objectvalues", "error", "nilerr", "stringers":
+	case "bstr", "ns", "skip", "stack", "stackskip", "zfstr", "zfstrs", "inline", "inlinedict", "objects", "objectvalues", "error", "nilerr", "stringers":
 		return false
 	case "slice":
 		switch s.V.(type) {
@@ -548,6 +571,13 @@ func (s *Spec) sliceField() zapcore.Field {
 func uni(s string) string { return string([]rune(s)) }
 
 func scalarNode(kind string, v any) *xnode {
+	n := scalarNode0(kind, v)
+	n.raw = v
+	n.rk = kind
+	return n
+}
+
+func scalarNode0(kind string, v any) *xnode {
 	switch kind {
 	case "str":
 		return xstr(uni(v.(string)))
@@ -672,8 +702,12 @@ func (s *Spec) ExpectField(o *objX) {
 	case "ns":
 		o.ns(k)
 	case "skip", "nilerr":
-	case "stack":
+	case "stack", "stackskip":
 		o.put(k, xany())
+	case "zfstr":
+		o.put(k, scalarNode("str", s.V.(string)))
+	case "zfstrs":
+		o.put(k, sliceNode(s.V.([]string)))
 	case "obj":
 		n := newObjX()
 		o.put(k, n.root)
@@ -752,7 +786,9 @@ func (s *Spec) ExpectField(o *objX) {
 		if txt != "" {
 			fail(txt)
 		} else {
-			o.put(k, xraw(js))
+			n := xraw(js)
+			n.raw = s.V
+			o.put(k, n)
 		}
 	default:
 		o.put(k, scalarNode(s.Kind, s.V))
@@ -790,7 +826,9 @@ func (s *Spec) expectElem(arr *xnode) string {
 		if txt != "" {
 			return txt
 		}
-		arr.els = append(arr.els, xraw(js))
+		rn := xraw(js)
+		rn.raw = s.V
+		arr.els = append(arr.els, rn)
 		return ""
 	}
 	arr.els = append(arr.els, scalarNode(s.Kind, s.V))
@@ -803,83 +841,83 @@ func sliceNode(v any) *xnode {
 	switch vs := v.(type) {
 	case []bool:
 		for _, x := range vs {
-			add(xbool(x))
+			add(scalarNode("bool", x))
 		}
 	case [][]byte:
 		for _, x := range vs {
-			add(xstr(uni(string(x))))
+			add(scalarNode("bstr", x))
 		}
 	case []complex128:
 		for _, x := range vs {
-			add(xc128(x))
+			add(scalarNode("c128", x))
 		}
 	case []complex64:
 		for _, x := range vs {
-			add(xc64(x))
+			add(scalarNode("c64", x))
 		}
 	case []time.Duration:
 		for _, x := range vs {
-			add(xdur(x))
+			add(scalarNode("dur", x))
 		}
 	case []float64:
 		for _, x := range vs {
-			add(xf64(x))
+			add(scalarNode("f64", x))
 		}
 	case []float32:
 		for _, x := range vs {
-			add(xf32(x))
+			add(scalarNode("f32", x))
 		}
 	case []int:
 		for _, x := range vs {
-			add(xint(int64(x)))
+			add(scalarNode("int", x))
 		}
 	case []int64:
 		for _, x := range vs {
-			add(xint(x))
+			add(scalarNode("i64", x))
 		}
 	case []int32:
 		for _, x := range vs {
-			add(xint(int64(x)))
+			add(scalarNode("i32", x))
 		}
 	case []int16:
 		for _, x := range vs {
-			add(xint(int64(x)))
+			add(scalarNode("i16", x))
 		}
 	case []int8:
 		for _, x := range vs {
-			add(xint(int64(x)))
+			add(scalarNode("i8", x))
 		}
 	case []string:
 		for _, x := range vs {
-			add(xstr(uni(x)))
+			add(scalarNode("str", x))
 		}
 	case []time.Time:
 		for _, x := range vs {
-			add(xtime(x))
+			add(scalarNode("time", x))
 		}
 	case []uint:
 		for _, x := range vs {
-			add(xuint(uint64(x)))
+			add(scalarNode("uint", x))
 		}
 	case []uint64:
 		for _, x := range vs {
-			add(xuint(x))
+			add(scalarNode("u64", x))
 		}
 	case []uint32:
 		for _, x := range vs {
-			add(xuint(uint64(x)))
+			add(scalarNode("u32", x))
 		}
 	case []uint16:
 		for _, x := range vs {
-			add(xuint(uint64(x)))
+			add(scalarNode("u16", x))
 		}
 	case []uint8:
 		for _, x := range vs {
-			add(xuint(uint64(x)))
+			add(scalarNode("u8", x))
 		}
 	case []uintptr:
 		for _, x := range vs {
-			add(xuint(uint64(x)))
+			add(scalarNode("uptr", x))
 		}
 	default:
 		panic(fmt.Sprintf("sliceNode %T", v))
@@ -1089,7 +1127,8 @@ type specOpts struct {
 	stack    bool // zap.Stack fields (value not predictable)
 	maxKids  int
 	viaAny   bool
-	faultPct int // probability (percent) that an obj/arr fails when faults are on
+	zapfield bool // exp/zapfield constructors
+	faultPct int  // probability (percent) that an obj/arr fails when faults are on
 }
 
 func genSpec(t *rapid.T, depth int, inArray bool, o specOpts) *Spec {
@@ -1101,7 +1140,10 @@ func genSpec(t *rapid.T, depth int, inArray bool, o specOpts) *Spec {
 		kinds = append(kinds, scalarKinds...)
 		kinds = append(kinds, "bin", "nilptr", "ns", "skip", "slice", "slice", "err", "error", "nilerr", "errs", "stringer", "stringers", "reflect", "reflect")
 		if o.stack {
-			kinds = append(kinds, "stack")
+			kinds = append(kinds, "stack", "stackskip")
+		}
+		if o.zapfield {
+			kinds = append(kinds, "zfstr", "zfstrs")
 		}
 	}
 	if depth > 0 {
@@ -1130,8 +1172,12 @@ func genSpec(t *rapid.T, depth int, inArray bool, o specOpts) *Spec {
 		}
 	}
 	switch s.Kind {
-	case "str":
+	case "str", "zfstr":
 		s.V = genStr().Draw(t, "v")
+	case "zfstrs":
+		s.V = drawN(t, rapid.IntRange(0, 3).Draw(t, "n"), genStr())
+	case "stackskip":
+		s.V = rapid.IntRange(0, 3).Draw(t, "skip")
 	case "bstr", "bin":
 		s.V = []byte(genStr().Draw(t, "v"))
 	case "bool":
